@@ -225,7 +225,9 @@ fn header_case(rng: &mut Rng, rep: &mut Report, case: u64) {
         }
         Ok(Err(e)) => {
             rep.count(&format!("headers.{key}.refused"));
-            if aspect == "nothing (control)" { report_outcome_failure(rep, &Ok(Err(e)), &pair, JarKind::NamedMem); }
+            // SourceFile / Signature are not among the header conflicts the merger documents as refusals (version, flags, super class,
+            // Deprecated / Synthetic, InnerClasses): a class that differs there is "a class differing between sides" and must be merged
+            if aspect == "nothing (control)" || aspect == "SourceFile or Signature" { report_outcome_failure(rep, &Ok(Err(e)), &pair, JarKind::NamedMem); }
         }
         Ok(Ok(z)) => {
             rep.count(&format!("headers.{key}.merged"));
